@@ -934,6 +934,65 @@ func lxExecSample(toks []string) string {
 	return "ok " + lxFmtInts(res) + " orc=" + orc
 }
 
+// lxExecSampleCov: `L samplecov <collect|stream> k=<k> n=<n> draws=<N> seed=<s>` — N samples of size k of the stream
+// 0..n-1; the observation is how often each element was included.  (The model of random sampling over a plain slice is
+// a uniformly random k-subset: every element is included with probability min(k,n)/n.)
+func lxExecSampleCov(toks []string) string {
+	if len(toks) != 5 {
+		return "bad-case"
+	}
+	get := func(t, pfx string) (int, bool) {
+		if !strings.HasPrefix(t, pfx) {
+			return 0, false
+		}
+		v, err := strconv.Atoi(t[len(pfx):])
+		return v, err == nil
+	}
+	k, ok1 := get(toks[1], "k=")
+	n, ok2 := get(toks[2], "n=")
+	draws, ok3 := get(toks[3], "draws=")
+	seed, ok4 := get(toks[4], "seed=")
+	if !ok1 || !ok2 || !ok3 || !ok4 || n < 0 || n > 64 || draws < 1 || draws > 100000 {
+		return "bad-case"
+	}
+	xs := make([]int, n)
+	for i := range xs {
+		xs[i] = i
+	}
+	rand.Seed(int64(seed)) //nolint:staticcheck
+	inc := make([]int, n)
+	ctx := context.Background()
+	for d := 0; d < draws; d++ {
+		var res []int
+		var err error
+		if toks[0] == "stream" {
+			res, err = stream.Just(xs...).RandomSample(k).Collect(ctx)
+		} else {
+			res, err = stream.Just(xs...).CollectRandomSample(ctx, k)
+		}
+		if err != nil {
+			return "err " + strings.ReplaceAll(err.Error(), " ", "_")
+		}
+		want := k
+		if want > n {
+			want = n
+		}
+		if want < 0 {
+			want = 0
+		}
+		if len(res) != want {
+			return fmt.Sprintf("badlen %d", len(res))
+		}
+		for _, v := range res {
+			if v < 0 || v >= n {
+				return "badelem"
+			}
+			inc[v]++
+		}
+	}
+	return "ok inc=" + lxFmtInts(inc)
+}
+
 // ---------------------------------------------------------------- Iterator / IndexedIterator
 
 func lxExecIter(toks []string) string {
@@ -1203,6 +1262,8 @@ func ExecC04Ext(caseText string) (out string) {
 		return lxExecColl(toks[2:])
 	case "sample":
 		return lxExecSample(toks[2:])
+	case "samplecov":
+		return lxExecSampleCov(toks[2:])
 	case "iter":
 		return lxExecIter(toks[2:])
 	case "src":
